@@ -622,6 +622,30 @@ def solve(assumptions, goal, timeout_ms=10000, extra_axioms=(), want_model=True,
     return Verdict.UNDECIDED, cand, {'backend': 'z3+cvc5', 's': total, 'reason': reason}
 
 
+def solve_ground(assumptions, goal, timeout_ms=10000):
+    """Validity of assumptions => goal without the sequence-theory axioms."""
+    from .values import val_axioms
+    s0 = z3.Solver()
+    s0.set('timeout', int(timeout_ms))
+    for a in val_axioms(list(assumptions) + [goal]):
+        s0.add(a)
+    for a in assumptions:
+        s0.add(a)
+    s0.add(z3.Not(goal))
+    t0 = time.time()
+    r0 = s0.check()
+    dt0 = time.time() - t0
+    if r0 == z3.unsat and dt0 > 0.6 * timeout_ms / 1000.0:
+        r0 = z3.unknown            # an unsat arriving at the timeout edge is not trusted
+    STATS['z3_queries'] += 1
+    STATS['z3_s'] += dt0
+    if r0 == z3.unsat:
+        return Verdict.PROVED, None, {'backend': 'z3(ground)', 's': dt0}
+    if r0 == z3.sat:
+        return Verdict.REFUTED, None, {'backend': 'z3(ground)', 's': dt0, 'reason': 'countermodel over the opaque abstraction'}
+    return Verdict.UNDECIDED, None, {'backend': 'z3(ground)', 's': dt0, 'reason': s0.reason_unknown()}
+
+
 def _cvc5(solver, timeout_ms):
     if not os.path.exists('/usr/bin/cvc5'):
         return 'unknown'
